@@ -344,7 +344,15 @@ class NetworkService(ModelElement):
             raise TopologyException(f'Interface {interface} is already connected to another service.')
         # create a peer interface, create a link between them
         # FIXME: copy labels from the interface into peer_labels (only needed in L3VPN, but why not?)
-        peer_if = Interface(name='-'.join([parent.name, interface.name]),
+        peer_name = '-'.join([parent.name, interface.name])
+        if interface.type == InterfaceType.SubInterface and self.__peer_name_taken(peer_name):
+            # sub-interface names are unique within their parent port only (two ports of a node can both
+            # carry a 'vlan100'): tell them apart by the port so that port and link names stay unique
+            peer_name = '-'.join([parent.name, self.topo.get_parent_element(interface).name, interface.name])
+        if self.__peer_name_taken(peer_name):
+            raise TopologyException(f'Unable to connect {interface}: service {self.name} already has an interface '
+                                    f'{peer_name} or the topology already has a link {peer_name}-link')
+        peer_if = Interface(name=peer_name,
                             parent_node_id=self.node_id,
                             etype=ElementType.NEW, topo=self.topo, itype=InterfaceType.ServicePort)
         # link type is determined by the type of interface = L2Path for shared, Patch for Dedicated
@@ -356,6 +364,19 @@ class NetworkService(ModelElement):
         peer_link = Link(name=peer_if.name + '-link', topo=self.topo, etype=ElementType.NEW,
                          interfaces=[interface, peer_if], ltype=ltype)
         self._interfaces.append(peer_if)
+
+    def __peer_name_taken(self, peer_name: str) -> bool:
+        """
+        Would a service-side port of this name (and its link) clash with what the model already has
+        """
+        if peer_name + '-link' in self.topo.links:
+            return True
+        # look at the model, this handle's list may be out of date
+        for cp_id in self.topo.graph_model.get_all_ns_or_link_connection_points(link_id=self.node_id):
+            _, cp_props = self.topo.graph_model.get_node_properties(node_id=cp_id)
+            if cp_props.get(ABCPropertyGraph.PROP_NAME) == peer_name:
+                return True
+        return False
 
     def disconnect_interface(self, interface: Interface) -> None:
         """
